@@ -54,15 +54,22 @@ def main():
     for f in ("demo.py", "NOTES.md"):
         if os.path.exists(os.path.join(wt, f)):
             shutil.copy(os.path.join(wt, f), os.path.join(out, f))
-    # 2. run the checks against /repo with the patch applied
-    rc, st = sh("git -C /repo status --porcelain --untracked-files=no")
-    assert not st.strip(), "/repo is dirty"
-    rc, o = sh("git -C /repo apply %s" % os.path.join(out, "patch.diff"))
-    assert rc == 0, o
+    # 2. run the checks with the patch applied: against /repo itself, or (SEEDTEST_COPY=<copy of /verif>) from a copy
+    #    of /verif against the scratch worktree, so that several drills can run side by side and /repo stays untouched
+    copy = os.environ.get("SEEDTEST_COPY")
+    if not copy:
+        rc, st = sh("git -C /repo status --porcelain --untracked-files=no")
+        assert not st.strip(), "/repo is dirty"
+        rc, o = sh("git -C /repo apply %s" % os.path.join(out, "patch.diff"))
+        assert rc == 0, o
     try:
         for p in props:
             t0 = time.time()
-            rc, o = sh("/venv/bin/python harness/check.py %s quick" % p, cwd=VERIF)
+            if copy:
+                rc, o = sh("/venv/bin/python harness/check.py %s quick" % p, cwd=copy, env=dict(os.environ, VERIF_REPO=wt))
+                o = o.replace(copy, VERIF)
+            else:
+                rc, o = sh("/venv/bin/python harness/check.py %s quick" % p, cwd=VERIF)
             lines = [l for l in o.splitlines() if l.startswith(("VIOLATION", "OK ", "KNOWN-FINDING"))]
             meta["ran"].append({"check": p, "tier": "quick", "exit": rc, "wall_s": round(time.time() - t0, 1),
                                 "lines": [l[:300] for l in lines]})
@@ -70,6 +77,8 @@ def main():
             for l in lines:
                 if l.startswith("VIOLATION") and "replay=" in l:
                     rp = l.split("replay=")[1].split()[0]
+                    if copy:
+                        rp = rp.replace(VERIF, copy, 1)
                     if os.path.exists(rp):
                         r = json.load(open(rp))
                         meta["ran"][-1]["replay_kind"] = r.get("kind")
@@ -77,9 +86,10 @@ def main():
                         meta["ran"][-1]["replay_input"] = str(r.get("input"))[:400]
                         break
     finally:
-        sh("git -C /repo checkout -- .")
-        rc, st = sh("git -C /repo status --porcelain --untracked-files=no")
-        assert not st.strip(), "/repo not restored"
+        if not copy:
+            sh("git -C /repo checkout -- .")
+            rc, st = sh("git -C /repo status --porcelain --untracked-files=no")
+            assert not st.strip(), "/repo not restored"
     meta["detected_by"] = [r["check"] for r in meta["ran"] if r["exit"] != 0]
     notes = open(os.path.join(out, "NOTES.md")).read() if os.path.exists(os.path.join(out, "NOTES.md")) else ""
     meta["needs_to_manifest"] = notes[:1500]
